@@ -206,7 +206,46 @@ func genCase(r *hx.Rng, ns tree.NodeStore) *Case {
 		c.EditsR = append(c.EditsR, toEditJ(er))
 		rr = apply(rr, er)
 	}
+	// tail: right grows past base's end (new last leaves), left has rows sorting after everything on the
+	// right and a point edit after right's first point edit — the shapes in which patches for right's
+	// LAST nodes meet later keys of left (at-end splitting in SendPatches / getNextAndSplitIfAtEnd)
+	tail := func() {
+		if len(b.Content) < 4 {
+			addL("point")
+			addR("point")
+			return
+		}
+		last := b.Content[len(b.Content)-1].K
+		var er, el []pk.Edit
+		if r.Chance(2, 3) {
+			er = append(er, pk.Edit{K: b.Content[r.Intn(len(b.Content)/2)].K, V: pk.GenVal(r)})
+		}
+		for i, n := 0, r.Range(1, 16); i < n; i++ {
+			nk := append(append([]byte{}, last...), '!', "abcdmz09"[r.Intn(8)], "abcdmz09"[r.Intn(8)])
+			er = append(er, pk.Edit{K: nk, V: pk.GenVal(r)})
+		}
+		if r.Chance(2, 3) {
+			el = append(el, pk.Edit{K: b.Content[len(b.Content)/2+r.Intn(len(b.Content)/2)].K, V: pk.GenVal(r)})
+		}
+		for i, n := 0, r.Range(1, 6); i < n; i++ {
+			nk := append(append([]byte{}, last...), '~', '~', "abcdmz09"[r.Intn(8)])
+			el = append(el, pk.Edit{K: nk, V: pk.GenVal(r)})
+		}
+		if r.Chance(1, 4) { // and the mirror image now and then
+			el, er = er, el
+		}
+		c.EditsL = append(c.EditsL, toEditJ(el))
+		l = apply(l, el)
+		c.EditsR = append(c.EditsR, toEditJ(er))
+		rr = apply(rr, er)
+	}
 	switch x := r.Intn(100); {
+	case x < 20:
+		c.Kind = "tail"
+		if r.Chance(1, 3) {
+			addL(hx.Pick(r, pk.EditKinds))
+		}
+		tail()
 	case x < 45:
 		c.Kind = "independent"
 		for i, k := 0, r.Range(0, 2); i < k; i++ {
@@ -736,26 +775,6 @@ func runCase(e *hx.Env, sh *pk.Shipper, ns tree.NodeStore, c *Case) {
 				e.Rep.Violate("SendPatches/"+c.Kind+"/collisions", "collision handler calls (SendPatches) differ: "+firstDiff(plog, wl), one)
 				continue
 			}
-			// canonical shape: root hash of the merged map = hash of a bulk build of its content.
-			// At this point the CONTENT and the collision calls are already known to be right, so a
-			// mismatch here is exactly the shape "equal contents, different root hash" of the known
-			// finding MergeMaps/canonical-shape (range patch for right's last leaf, design/C14.md);
-			// it is reported as a known witness (bin/check prints KNOWN-FINDING only while the key is
-			// listed in known_findings.json, otherwise it is a violation).  The generator never makes
-			// pairs larger than ~20 bytes, so C12's giant-item shape (one pair > ~48 KiB ending a node
-			// by capacity) cannot occur here.
-			gotC, _ := pk.Materialise(ctx, out.m)
-			if bulk, err := pk.Build(ctx, ns, gotC); err != nil {
-				e.Rep.Violate(key+"/bulk-build-error", fmt.Sprint(err), one)
-				continue
-			} else if bulk.HashOf() != out.m.HashOf() {
-				swapped := "swapped merge not computed"
-				if sm, _, err := prolly.MergeMaps(ctx, r.Map, l.Map, b.Map, collideFn("C", new([]string))); err == nil {
-					swapped = fmt.Sprintf("MergeMaps(right,left,base) root hash %s", sm.HashOf())
-				}
-				e.Rep.Hit("known:canonical-shape")
-				e.Rep.Known("MergeMaps/canonical-shape", fmt.Sprintf("equal contents, different root hash: merged map %s != bulk build of its content %s (%s)", out.m.HashOf(), bulk.HashOf(), swapped), one)
-			}
 			if op.Mode == "C" || op.Mode == "L" {
 				// the two paths agree on every key and value; the key BYTES of a key that a side
 				// re-cased may differ (the differ reports base's bytes, the patch the new bytes), so
@@ -770,10 +789,17 @@ func runCase(e *hx.Env, sh *pk.Shipper, ns tree.NodeStore, c *Case) {
 					e.Rep.Hit("paths-agree:key-bytes-differ")
 				}
 			}
-			mod := sh.M.Ask(fmt.Sprintf("merge %d %d %d %s", idb, idl, idr, op.Mode))
+			modFull := sh.M.Ask(fmt.Sprintf("merge %d %d %d %s", idb, idl, idr, op.Mode))
+			// the model appends `cause=0|1`: does ITS patch stream (the unchanged SendPatches) exhibit the
+			// cause of the known finding MergeMaps/canonical-shape for this input (design/C14.md)?
+			mod, cause := modFull, false
+			if k := strings.LastIndex(modFull, " cause="); k >= 0 {
+				mod, cause = modFull[:k], modFull[k:] == " cause=1"
+			}
 			got := "ok " + out.content + " " + patches + " " + wl
 			e.Rep.Sample(map[string]any{"kind": c.Kind, "m": c.M, "op": op, "patches": trunc(patches), "collisions": trunc(wl)})
-			if got != mod {
+			streamsAgree := got == mod
+			if !streamsAgree {
 				note := "content"
 				gp, mp := strings.SplitN(got, " ", 4), strings.SplitN(mod, " ", 4)
 				if len(gp) == 4 && len(mp) == 4 {
@@ -787,6 +813,40 @@ func runCase(e *hx.Env, sh *pk.Shipper, ns tree.NodeStore, c *Case) {
 					}
 				}
 				e.Rep.Disagree(one, trunc(got), trunc(mod), note)
+			}
+			// canonical shape: root hash of the merged map = hash of a bulk build of its content.
+			// Content and collision calls are already known to be right here.  A mismatch is the KNOWN
+			// finding MergeMaps/canonical-shape only if it is identified by its INPUT: the real patch
+			// stream equals the model's (the unchanged SendPatches) AND that stream exhibits the known
+			// cause (a subtree-carrying range patch for right's last node while left has later keys —
+			// only the two bare r.split sites can emit it).  Any other non-canonical result is a new
+			// violation.  (The generator never makes pairs > ~20 bytes, so C12's giant-item shape
+			// cannot occur here.)
+			gotC, _ := pk.Materialise(ctx, out.m)
+			if bulk, err := pk.Build(ctx, ns, gotC); err != nil {
+				e.Rep.Violate(key+"/bulk-build-error", fmt.Sprint(err), one)
+				continue
+			} else if bulk.HashOf() != out.m.HashOf() {
+				swapped := "swapped merge not computed"
+				if sm, _, err := prolly.MergeMaps(ctx, r.Map, l.Map, b.Map, collideFn("C", new([]string))); err == nil {
+					swapped = fmt.Sprintf("MergeMaps(right,left,base) root hash %s", sm.HashOf())
+				}
+				what := fmt.Sprintf("equal contents, different root hash: merged map %s != bulk build of its content %s (%s)", out.m.HashOf(), bulk.HashOf(), swapped)
+				if streamsAgree && cause {
+					e.Rep.Hit("known:canonical-shape")
+					e.Rep.Known("MergeMaps/canonical-shape", what, one)
+				} else {
+					why := "the unchanged SendPatches' stream for this input does not contain the known cause (no subtree range patch for right's last node with later keys in left)"
+					if !streamsAgree {
+						why = "the real patch stream differs from the unchanged SendPatches' stream"
+					}
+					e.Rep.Violate("MergeMaps/merge-noncanonical-shape", what+"; not the known finding: "+why+"; real patches "+trunc(patches), one)
+					continue
+				}
+			} else if cause && streamsAgree {
+				e.Rep.Hit("cause-present-but-canonical")
+			}
+			if !streamsAgree {
 				continue
 			}
 			// model-internal: the model's patch merge against the model's key-wise spec
